@@ -729,6 +729,15 @@ class SVG:
         """
         Removes groups where possible, applies transforms, applies clip paths.
         """
+        # opacity on the root applies to the picture as a whole, just like on a
+        # group; express it as one so the usual group rules take care of it
+        root_opacity = self.svg_root.attrib.pop("opacity", None)
+        if root_opacity is not None and _clamp(float(root_opacity)) != 1.0:
+            group = etree.Element(f"{{{svgns()}}}g", nsmap=self.svg_root.nsmap)
+            group.attrib["opacity"] = root_opacity
+            group.extend(list(self.svg_root))
+            self.svg_root.append(group)
+
         # Reversed: we want leaves first
         to_process = reversed(tuple(c for c in self.breadth_first()))
 
